@@ -322,6 +322,8 @@ pub fn run(rep: &mut Rep) {
         let seed = rep.seed.wrapping_mul(1_000_003).wrapping_add(k);
         let mut rng = Rng::new(seed);
         let mut w = World::boot(WorldCfg { seed, receive_max: Some(1 + (k % 3) as u16), max_packet: if k % 3 == 0 { Some(64) } else { None }, order: (k % 4) as u8, ..Default::default() });
+        // under the Maximum Packet Size every third subscribe / unsubscribe is refused too: its identifiers are consumed, never sent
+        w.big_subs = k % 3 == 0;
         let acts = super::script::run_walk(&mut w, &wa, &mut rng, 70);
         rep.add("evaluations", 1);
         rep.add("refusal_walks", 1);
